@@ -19,6 +19,8 @@ for k in frag["findings"]:
     main["findings"] = [m for m in main["findings"] if not (m["property"] == k["property"] and m["key"] == k["key"])]
     main["findings"].append(k)
 main["findings"].sort(key=lambda m: (m["property"], m["key"]))
-json.dump(main, open(os.path.join(ROOT, "known_findings.json"), "w"), indent=1, ensure_ascii=False)
+_tmp = os.path.join(ROOT, "known_findings.json.tmp")
+json.dump(main, open(_tmp, "w"), indent=1, ensure_ascii=False)
+os.replace(_tmp, os.path.join(ROOT, "known_findings.json"))
 os.unlink(frag_path)
 print("merged", pid, [(k["key"], acts.get(k["key"], "known")) for k in frag["findings"]])
